@@ -165,6 +165,10 @@ def http_expect(state: str, name: str, proto: str) -> Tuple[str, str]:
             return "any", "?"
         if state == "TRAILERS" and not has_ctl(msg):
             return "ok", "CLOSED"
+        if state in ("RESPONSE", "RESPONSE_T"):
+            # ASGI: trailers follow the *complete* body of a response started with
+            # trailers=True; while the body is still being sent they are invalid for the state
+            return "raise", state
         return "any", "?"
     if t == "http.response.early_hint":
         if h2 and state == "REQUEST":
